@@ -54,8 +54,24 @@ def _deep_merge_and_barrier_cases():
     return out
 
 
+def _mixed_order_cases():
+    """Mixed plans in which a wire cut lies in front of (in instruction order) a gate cut: two bound pairs, a swap-like gate across them (kappa 7 > 4:
+    the wire cut is the cheaper separation), then a cx-like gate across the boundary; also the reverse order and two wire cuts before the gate cut."""
+    out = []
+    bound = [("cx", 0, 1), ("cx", 0, 1), ("cx", 2, 3), ("cx", 2, 3)]
+    progs = [bound + [(big, 1, 2), (small, 0, 3)] for big in ("swap", "iswap", "dcx") for small in ("cx", "cz")]
+    progs += [bound + [("cx", 0, 3), ("swap", 1, 2)], bound + [("swap", 1, 2), ("h", 1), ("swap", 1, 2), ("cx", 0, 3)],
+              bound + [("swap", 2, 1), ("cx", 3, 0), ("cx", 0, 1)]]
+    for k, prog in enumerate(progs):
+        instrs = [{"name": nm, "qubits": list(qs)} for nm, *qs in prog]
+        for bj in (None, 0):
+            out.append({"nq": 4, "instrs": instrs, "seed": 3 + k, "max_gamma": 1024.0, "max_backjumps": bj, "gate_lo": True, "wire_lo": True,
+                        "width": 3, "exact": True, "always_oracle": True})
+    return out
+
+
 def cases(rng, tier):
-    for p in _deep_merge_and_barrier_cases():
+    for p in _deep_merge_and_barrier_cases() + _mixed_order_cases():
         yield ("find_cuts", p)
     N = 150 if tier == "quick" else 2500
     # deterministic families (independent of the seed, oracle always run): Delay instructions before / in front of / after the cut positions
